@@ -108,6 +108,12 @@ def plan(rng, idx, tier):
     nfiles = srng.weighted([(0, 4), (1, 3), (2, 2), (3, 1)])       # 0 = stdin
     cuts = sorted(srng.randrange(ng + 1) for _ in range(max(0, nfiles - 1)))
     opts = plan_options(rng.sub('opts'), spec)
+    if opts.get('canonicalize_roles'):
+        # "--canonicalize-roles will try harder to resolve over-inversions": give it some
+        orng = rng.sub('overinvert')
+        for g_ in graphs:
+            if orng.chance(0.3):
+                _over_invert(g_['tree'], orng)
     opts2 = dict(opts)
     frng = rng.sub('fmt2')
     opts2['indent'] = frng.pick([x for x in [-1, None, 0, 2, 5] if x != opts['indent']])
@@ -132,6 +138,16 @@ def plan(rng, idx, tier):
 
 
 # --------------------------------------------------------------------------
+
+def _over_invert(node, rng):
+    for b in node[1]:
+        role, tgt = b
+        if role != '/' and rng.chance(0.35):
+            base, tilde, aln = role.partition('~')
+            b[0] = base + '-of-of' * (1 + rng.randrange(2)) + tilde + aln
+        if isinstance(tgt, list):
+            _over_invert(tgt, rng)
+
 
 def split_sources(trace):
     graphs = trace['graphs']
